@@ -45,13 +45,13 @@ def configs(tier):
                 {"kind": "factory", "workers": 1, "cs": 1, "nmax": 1, "quota": 1, "spares": 1, "fixed_K": 84, "timeout_s": 300},
                 # two chunks: the initial worker (quota 1) retires after the first chunk while the second one is still queued and
                 # the feeding may already be over; the spare has no quota (one replacement, 5 threads). All schedules with at
-                # most 2 pre-emptions; *measured* 4-8 min per query on a loaded machine (seed C03-m2 is found here as a deadlock).
+                # most 2 pre-emptions; *measured* on a loaded machine: 5-19 min per query, 48 min in all on the repaired tree (seed C03-m2 is found here as a deadlock).
                 {"kind": "factory", "workers": 1, "cs": 1, "nmax": 2, "quota": 1, "spares": 1, "spares_unlimited": True,
-                 "context_bound": 2, "Ks": (110, 130), "timeout_s": 1500}]
+                 "context_bound": 2, "Ks": (110, 130), "timeout_s": 2700}]
     return out
 
 
 def run(tier, seed):
     Ks = (48, 58, 70) if tier == "quick" else (52, 66, 80, 100)
     return runner.run_property("C03", tier, seed, "harness.pools_common", configs(tier), ("assert", "deadlock"), Ks,
-                               900 if tier == "quick" else 1200, META, wall_limit=1700 if tier == "quick" else 6000)
+                               900 if tier == "quick" else 1200, META, wall_limit=1700 if tier == "quick" else 10800)
